@@ -41,6 +41,13 @@ def stdlib_table(prog):
                 if x[0] == "const" and x[1] and x[1].startswith('"'):
                     nm = x[1].strip('"')
             impl = f.ty(fr["targs"][0]).s if fr.get("targs") else None
+            if (impl is None or "::" not in impl) and len(t["args"]) > 2:
+                # registered through a generic helper (`register(name, F)`): the type parameter is whatever value reaches the call
+                v = strip(tr.operand(t["args"][2]))
+                if v[0] == "agg" and v[2]:
+                    impl = v[2]
+                elif v[0] == "const" and v[1] and "::" in v[1]:
+                    impl = re.sub(r"\s*\{.*$|\(.*$", "", v[1])
             if nm:
                 table[nm] = impl
     return table
@@ -304,51 +311,97 @@ def run(prog, rep):
                     rep.check(okc, "C13.A", "%s :: checked arithmetic → FunctionFailed" % name, sp_str(t["sp"]), "overflow becomes a function failure", "checked arithmetic result is not turned into an error")
     rep.floor("C13.A", na, 1, "checked integer operations (plus)")
     # ---- EQ table
-    rep.rule("C13.EQ", "`eq`: same-variant payloads compared by equality, Null comparable to everything, other mixed types → FunctionFailed")
+    rep.rule("C13.EQ", "`eq`: same-variant payloads compared by equality, Null comparable to everything, other mixed types → FunctionFailed (the 8×8 table is evaluated pair by pair on the CFG)")
     if "eq" in impls:
         f = impls["eq"]
         body, tr = f.body, Tracer(f.body)
-        outer = None
-        for b in sorted(body.reachable()):
-            es = switch_edges(body, tr, b)
-            if len([g for g in es if g.variant]) >= 8 and "Parameters::param" in canon(es[0].cond):
-                outer = b
-                break
-        if outer is None:
-            rep.violation("C13.EQ", "anchor-lost:eq outer switch", f.loc(), "no 8-way switch on the left value")
+        variants = [v["name"] for v in prog.adts["tsg::graph::Value"]["variants"]]
+        pcalls = sorted(b for b, t in body.calls() if is_callee(t, r"functions::Parameters::param$"))
+        if len(pcalls) != 2:
+            rep.violation("C13.EQ", "anchor-lost:eq parameters", f.loc(), "expected two param() calls, found %d" % len(pcalls))
         else:
-            variants = [v["name"] for v in prog.adts["tsg::graph::Value"]["variants"]]
-            es = {g.variant: g for g in switch_edges(body, tr, outer) if g.variant}
-            rep.check(set(es) == set(variants), "C13.EQ", "eq :: left variants", f.loc(), "one arm per Value variant", "left-value arms: %s" % sorted(es))
-            for v in variants:
-                if v not in es:
-                    continue
-                g = es[v]
-                others = {x.dst for x in es.values() if x.dst != g.dst}
-                region = body.reach_from([g.dst], avoid=others)
-                inner = None
-                for x in sorted(region):
-                    ies = switch_edges(body, tr, x)
-                    if ies and ies[0].cond != g.cond and any(e.variant for e in ies) and "Parameters::param" in canon(ies[0].cond):
-                        inner = x
-                        break
-                if inner is None:
-                    rep.violation("C13.EQ", "eq :: %s inner switch" % v, f.loc(), "no switch on the right value in the %s arm" % v)
-                    continue
-                ies = {e.variant: e for e in switch_edges(body, tr, inner) if e.variant}
-                okn = "Null" in ies
-                oks = v == "Null" or v in ies
-                cmp_ok = True
-                if v != "Null" and v in ies:
-                    e = ies[v]
-                    oth = {x.dst for x in switch_edges(body, tr, inner) if x.dst != e.dst}
-                    reg = body.reach_from([e.dst], avoid=oth)
-                    cmp_ok = any((body.term(x)["k"] == "call" and is_callee(body.term(x), r"PartialEq.*::eq$")) or
-                                 any(st["k"] == "assign" and st["rv"]["k"] == "binop" and st["rv"]["op"] == "Eq" for st in body.blocks[x]["stmts"]) for x in reg)
-                rep.check(okn and oks and cmp_ok, "C13.EQ", "eq :: %s row" % v, f.loc(), "%s: Null arm%s" % (v, "" if v == "Null" else ", same-variant arm compares payloads"),
-                          "row %s of the eq table lost its Null arm / same-variant comparison (arms: %s)" % (v, sorted(ies)))
-            ff = any(st["k"] == "assign" and st["rv"]["k"] == "aggregate" and st["rv"].get("variant") == "FunctionFailed" for b in sorted(body.reachable()) for st in body.blocks[b]["stmts"])
-            rep.check(ff, "C13.EQ", "eq :: mixed types fail", f.loc(), "falls through to FunctionFailed", "mixed-type comparison no longer fails")
+            def side(cond):
+                """which parameter a discriminant test is about: 0 (left), 1 (right) or None"""
+                bbs = {x[4] for x in walk(cond) if x[0] == "call" and len(x) > 4 and re.search(r"Parameters::param$", x[1] or "")}
+                if bbs == {pcalls[0]}:
+                    return 0
+                if bbs == {pcalls[1]}:
+                    return 1
+                return None
+
+            def outcome(lv, rv):
+                """follow the CFG for left = lv, right = rv; returns the set of outcomes {true,false,cmp,err,?}"""
+                outs = set()
+                seen = set()
+                work = [(0, ())]
+                steps = 0
+                while work and steps < 3000:
+                    steps += 1
+                    b, path = work.pop()
+                    if b in path:           # no loops in a comparison table; a cycle would only repeat the same tests
+                        continue
+                    path = path + (b,)
+                    t = body.term(b)
+                    if t["k"] != "return" and not body.succ(b):
+                        continue            # unreachable / resume: not an outcome
+                    if t["k"] == "return":
+                        stm = [st for x in path for st in body.blocks[x]["stmts"] if st["k"] == "assign"]
+                        if any(st["rv"]["k"] == "aggregate" and st["rv"].get("variant") in ("FunctionFailed",) for st in stm) or \
+                                any(body.term(x)["k"] == "call" and is_callee(body.term(x), r"FromResidual.*::from_residual$") for x in path):
+                            outs.add("err")
+                        elif any((body.term(x)["k"] == "call" and is_callee(body.term(x), r"PartialEq.*::eq$")) for x in path) or \
+                                any(st["rv"]["k"] == "binop" and st["rv"]["op"] == "Eq" for st in stm):
+                            outs.add("cmp")
+                        else:
+                            consts = []
+                            for x in path:
+                                for st in body.blocks[x]["stmts"]:
+                                    if st["k"] == "assign" and st["rv"]["k"] == "use" and st["rv"]["op"].get("k") == "const" and st["rv"]["op"].get("v") in ("true", "false"):
+                                        consts.append(st["rv"]["op"]["v"])
+                                    if st["k"] == "assign" and st["rv"]["k"] == "aggregate" and st["rv"].get("variant") == "Boolean":
+                                        consts += [o.get("v") for o in st["rv"]["ops"] if o.get("k") == "const" and o.get("v") in ("true", "false")]
+                                tx = body.term(x)
+                                if tx["k"] == "call" and is_callee(tx, r"convert::(Into::into|From::from)$"):
+                                    consts += [a.get("v") for a in tx["args"] if a.get("k") == "const" and a.get("v") in ("true", "false")]
+                            outs.add(consts[-1] if consts else "?")
+                        continue
+                    if t["k"] == "switch":
+                        es = switch_edges(body, tr, b)
+                        sd = side(es[0].cond) if es else None
+                        named = [e for e in es if e.variant]
+                        if sd is not None and named and set(e.variant for e in named) <= set(variants):
+                            want = lv if sd == 0 else rv
+                            hit = [e for e in named if e.variant == want]
+                            nxt = [hit[0].dst] if hit else [e.dst for e in es if not e.variant]
+                            for n_ in nxt:
+                                work.append((n_, path))
+                            continue
+                        if named and set(e.variant for e in named) <= {"Continue", "Break"} and sd is not None:
+                            # `?` on the param() call itself: parameters are present in this table
+                            work.extend((e.dst, path) for e in named if e.variant == "Continue")
+                            continue
+                    for n_ in body.succ(b):
+                        if not body.blocks[n_].get("cleanup"):
+                            work.append((n_, path))
+                return outs
+            bad = []
+            for lv in variants:
+                for rv in variants:
+                    o = outcome(lv, rv)
+                    o.discard("err") if False else None
+                    if lv == "Null" and rv == "Null":
+                        want = {"true"}
+                    elif lv == "Null" or rv == "Null":
+                        want = {"false"}
+                    elif lv == rv:
+                        want = {"cmp"}
+                    else:
+                        want = {"err"}
+                    # the arity check (`finish()?`) can fail on every row: an additional "err" is not a table entry
+                    if (o - {"err"}) != (want - {"err"}) or ("err" in want and "err" not in o):
+                        bad.append("(%s, %s) → %s, expected %s" % (lv, rv, sorted(o), sorted(want)))
+            rep.check(not bad, "C13.EQ", "eq :: 8×8 table", f.loc(), "Null/Null true; Null/x false; same variant → payload comparison; otherwise FunctionFailed",
+                      "the eq table differs in %d of 64 entries: %s" % (len(bad), "; ".join(bad[:4])))
     # ---- FMT
     rep.rule("C13.FMT", "`format` iterates the characters of the format string (str::chars) and pushes literal characters unchanged")
     if "format" in impls:
